@@ -271,10 +271,10 @@ func c15Gen(c *core.Ctx) {
 
 func init() {
 	core.Register(&core.Engine{
-		ID:        "C15",
-		Level:     "exploration",
-		Technique: "runtime monitoring: identity oracle over exhaustive-short and random strings x 4 literal quotings x 7 expansion modes in adversarial environments (IFS made of the string's own characters, a directory holding a file for every 1-2 symbol name), end to end through parser and Expand",
-		Rule: "a case is a string s; exhaustive over all strings of <=3 (thorough <=4) symbols of the 29-symbol alphabet {blank tab newline ' \" \\ $ ` * ? [ ] ~ # & | ; < > ( ) { } ! a = : / é}, then random strings of <=24 symbols with multi-byte and control characters; each is written in single, double, backslash and mixed quoting, parsed, and expanded in modes default/Quote/Literal/Arith/Assign/Assign|Literal (result must be [s]) and Pattern (result must match s and none of its one-rune edits, judged by refpat), under 2 of 4 environments. distinct_nontrivial = distinct strings.",
+		ID:          "C15",
+		Level:       "exploration",
+		Technique:   "runtime monitoring: identity oracle over exhaustive-short and random strings x 4 literal quotings x 7 expansion modes in adversarial environments (IFS made of the string's own characters, a directory holding a file for every 1-2 symbol name), end to end through parser and Expand",
+		Rule:        "a case is a string s; exhaustive over all strings of <=3 (thorough <=4) symbols of the 29-symbol alphabet {blank tab newline ' \" \\ $ ` * ? [ ] ~ # & | ; < > ( ) { } ! a = : / é}, then random strings of <=24 symbols with multi-byte and control characters; each is written in single, double, backslash and mixed quoting, parsed, and expanded in modes default/Quote/Literal/Arith/Assign/Assign|Literal (result must be [s]) and Pattern (result must match s and none of its one-rune edits, judged by refpat), under 2 of 4 environments. distinct_nontrivial = distinct strings.",
 		Assumptions: []string{"valid UTF-8 strings without NUL", "refpat judges the Pattern-mode clause"},
 		Gen:         c15Gen,
 		Replay:      func(c *core.Ctx, raw []byte) { core.ReplayOne(c, raw, c15Exec) },
